@@ -1,57 +1,126 @@
-"""Parallel execution of llsym jobs (one engine per worker process, module parsed once in the parent)."""
-import os, sys, time, json, multiprocessing, traceback
+"""Parallel execution of llsym jobs.  The IR modules are parsed (and all instructions pre-parsed) once in the
+parent, which never touches z3; every job runs in its own forked child with a fresh engine and solver state,
+an address-space limit and a wall-clock limit, so a runaway or out-of-memory job is reported as inconclusive
+instead of taking the whole check down."""
+import os, sys, time, json, traceback, resource, signal, tempfile, pickle
 
 HERE = os.path.dirname(os.path.abspath(__file__))
 sys.path.insert(0, os.path.join(os.path.dirname(HERE), "llsym"))
 
 _MODS = {}
-_ENG = {}
 
 
 def load_modules(paths):
-    """parse IR modules in the parent (no z3 objects are created here, so forking afterwards is safe)"""
     import llparse
     for key, p in paths.items():
-        _MODS[key] = llparse.parse_module(p)
+        m = llparse.parse_module(p)
+        m.code.parse_all()
+        _MODS[key] = m
 
 
-def _run(job):
+def _child(job, outpath, mem_bytes):
     try:
+        if mem_bytes:
+            resource.setrlimit(resource.RLIMIT_AS, (mem_bytes, mem_bytes))
         import run as R
         import engine as E
+        import z3
+        z3.set_param("memory_max_size", int(mem_bytes / (1 << 20) * 0.8) if mem_bytes else 0)
         key = job.get("ir", "release")
-        eng = _ENG.get(key)
-        if eng is None:
-            eng = _ENG[key] = E.Engine(_MODS[key], max_steps=job.get("max_steps", 3_000_000),
-                                        solver_timeout_ms=job.get("solver_timeout_ms", 120000))
-        eng.max_steps = job.get("max_steps", 3_000_000)
+        eng = E.Engine(_MODS[key], max_steps=job.get("max_steps", 3_000_000), solver_timeout_ms=job.get("solver_timeout_ms", 120000))
         opts = {k: job[k] for k in ("path_budget", "time_budget", "concrete") if k in job}
         res = R.run_job(_MODS[key], job["harness"], {int(k): v for k, v in job.get("params", {}).items()}, opts, engine=eng)
-        res["job"] = job
-        return res
-    except Exception as e:
-        return dict(job=job, harness=job["harness"], params=job.get("params", {}), status="engine-exception: %s" % e,
-                    trace=traceback.format_exc()[-3000:], stats={}, solver={}, results=[], n_results=0, reached=[],
-                    samples=[], funcs=[], wall=0.0)
+    except MemoryError:
+        res = dict(status="out-of-memory (limit %d MB)" % (mem_bytes >> 20))
+    except BaseException as e:
+        res = dict(status="engine-exception: %s" % e, trace=traceback.format_exc()[-3000:])
+    try:
+        with open(outpath, "wb") as f:
+            pickle.dump(res, f)
+    finally:
+        os._exit(0)
 
 
-def run_jobs(jobs, nproc=None, progress=None):
+def _blank(job, status):
+    return dict(job=job, harness=job["harness"], params=job.get("params", {}), status=status, stats={}, solver={}, results=[],
+                n_results=0, reached=[], samples=[], funcs=[], stubs=[], wall=0.0)
+
+
+def run_jobs(jobs, nproc=None, progress=None, mem_gb=None):
     nproc = nproc or int(os.environ.get("VERIF_JOBS", "0")) or min(16, os.cpu_count() or 4)
-    nproc = max(1, min(nproc, len(jobs)))
-    out = []
-    if nproc == 1:
-        for j in jobs:
-            r = _run(j)
-            out.append(r)
-            if progress:
-                progress(r)
-        return out
-    ctx = multiprocessing.get_context("fork")
-    # long jobs first
+    nproc = max(1, min(nproc, len(jobs) or 1))
+    if mem_gb is None:
+        try:
+            total = os.sysconf("SC_PAGE_SIZE") * os.sysconf("SC_PHYS_PAGES")
+        except Exception:
+            total = 32 << 30
+        mem_gb = max(2.0, min(8.0, total * 0.8 / nproc / (1 << 30)))
+    mem_bytes = int(mem_gb * (1 << 30))
+    tmpd = tempfile.mkdtemp(prefix="verif-jobs-")
     order = sorted(range(len(jobs)), key=lambda i: -jobs[i].get("weight", 1))
-    with ctx.Pool(nproc, maxtasksperchild=None) as pool:
-        for r in pool.imap_unordered(_run, [jobs[i] for i in order], chunksize=1):
-            out.append(r)
+    pending = list(order)
+    running = {}     # pid -> (idx, outpath, t0, limit)
+    out = []
+    try:
+        while pending or running:
+            while pending and len(running) < nproc:
+                i = pending.pop(0)
+                job = jobs[i]
+                outpath = os.path.join(tmpd, "r%d.pkl" % i)
+                pid = os.fork()
+                if pid == 0:
+                    _child(job, outpath, mem_bytes)
+                # hard wall limit: the job's own time budget (checked between paths) plus slack for one long solver call
+                limit = job.get("time_budget", 3600) + 300
+                running[pid] = (i, outpath, time.time(), limit)
+            # reap
+            try:
+                pid, status = os.waitpid(-1, os.WNOHANG)
+            except ChildProcessError:
+                pid = 0
+            if pid == 0:
+                now = time.time()
+                for p, (i, outpath, t0, limit) in list(running.items()):
+                    if now - t0 > limit:
+                        try:
+                            os.kill(p, signal.SIGKILL)
+                        except ProcessLookupError:
+                            pass
+                time.sleep(0.05)
+                continue
+            if pid not in running:
+                continue
+            i, outpath, t0, limit = running.pop(pid)
+            job = jobs[i]
+            res = None
+            if os.path.exists(outpath):
+                try:
+                    with open(outpath, "rb") as f:
+                        res = pickle.load(f)
+                    os.unlink(outpath)
+                except Exception:
+                    res = None
+            if res is None:
+                why = "killed (wall limit %ds)" % limit if time.time() - t0 > limit else "worker died (signal %d, probably out of memory)" % (status & 0x7f)
+                res = _blank(job, why)
+            base = _blank(job, res.get("status", "?"))
+            base.update(res)
+            base["job"] = job
+            if base.get("wall", 0) == 0:
+                base["wall"] = time.time() - t0
+            out.append(base)
             if progress:
-                progress(r)
+                progress(base)
+    finally:
+        for p in running:
+            try:
+                os.kill(p, signal.SIGKILL)
+            except Exception:
+                pass
+        try:
+            for f in os.listdir(tmpd):
+                os.unlink(os.path.join(tmpd, f))
+            os.rmdir(tmpd)
+        except Exception:
+            pass
     return out
